@@ -503,7 +503,7 @@ theorem earlyS_for_nolex (w : Bool) (i : DS) (c p : Option DE) (b : List DS) (hl
   simp [earlyS, hl, hc, hasDup, meets]
 
 theorem varNamesL_for (w : Bool) (i : DS) (c p : Option DE) (b rest : List DS) :
-    varNamesL (.forS w i c p b :: rest) = varNamesS i ++ varNamesL b ++ varNamesL rest := by
+    varNamesL (.forS w i c p b :: rest) = forInitNames i ++ varNamesL b ++ varNamesL rest := by
   simp [varNamesL, varNamesS]
 
 theorem evalItems_noDefines (H : Host) (K : Val → List Val → M Val) (l : List DE) (env : Env)
@@ -528,7 +528,7 @@ theorem forInitDeclEmpty_eq (items : List DE) (w : Bool) (c p : Option DE) (b re
   vars := by
     intro x
     rw [varNamesL_declVar, varNamesL_for, varNamesL_for]
-    simp [varNamesS]
+    simp [forInitNames]
   fns := by simp [fnDeclsL]
   early := by
     simp only [earlyItems, earlyS_decl, constNoInit, Bool.false_or,
@@ -549,7 +549,7 @@ theorem forInitExprEmpty_eq (e : DE) (w : Bool) (c p : Option DE) (b rest : List
   vars := by
     intro x
     rw [varNamesL_expr, varNamesL_for, varNamesL_for]
-    simp [varNamesS]
+    simp [forInitNames]
   fns := by simp [fnDeclsL]
   early := by
     simp only [earlyItems, earlyS, constNoInit, Bool.false_or,
@@ -580,7 +580,7 @@ theorem forInitMerge_eq (items items2 : List DE) (k2 : DeclKind) (hk : k2 = .var
     rw [varNamesL_declVar, varNamesL_for, varNamesL_for]
     apply contains_eq_of_iff
     rcases hk with hk | hk <;> subst hk <;>
-      simp only [varNamesS, List.mem_append, mergeVarDecls_names, List.not_mem_nil, false_or] <;> grind
+      simp only [forInitNames, List.mem_append, mergeVarDecls_names, List.not_mem_nil, false_or] <;> grind
   fns := by simp [fnDeclsL]
   early := by
     have hl : lexDeclsS (.decl k2 items2) = [] := by rcases hk with hk | hk <;> subst hk <;> rfl
@@ -605,7 +605,7 @@ theorem forInitReplace_eq (items items2 : List DE) (h2 : hasDefines items2 = fal
   vars := by
     intro x
     rw [varNamesL_declVar, varNamesL_for, varNamesL_for]
-    simp [varNamesS]
+    simp [forInitNames]
   fns := by simp [fnDeclsL]
   early := by
     simp only [earlyItems, earlyS_decl, constNoInit, Bool.false_or,
@@ -630,7 +630,7 @@ theorem forInitAssign_eq (items : List DE) (x : String) (a : Ann) (e : DE) (w : 
     intro y
     rw [varNamesL_expr, varNamesL_for, varNamesL_for]
     apply contains_eq_of_iff
-    simp only [varNamesS, List.mem_append, addDefinition_names, itemName, Option.some.injEq, List.mem_singleton]
+    simp only [forInitNames, List.mem_append, addDefinition_names, itemName, Option.some.injEq, List.mem_singleton]
     grind
   fns := by simp [fnDeclsL]
   early := by
@@ -655,7 +655,7 @@ theorem forInitAssignHoisted_eq (items : List DE) (x : String) (a : Ann) (e : DE
   vars := by
     intro y
     rw [varNamesL_expr, varNamesL_for, varNamesL_for]
-    simp [varNamesS]
+    simp [forInitNames]
   fns := by simp [fnDeclsL]
   early := by
     simp only [earlyItems, earlyS, constNoInit, Bool.false_or,
